@@ -113,6 +113,37 @@ def sequential_events(rnd: random.Random, q: bool) -> list:
             ea, eb = iv_event(a), iv_event(b)
             evs.append({"op": "zc", "zone": zid, "cached": [ea[k] for k in ("start", "end", "wall", "std", "sav")] + [ea["name"]],
                         "direct": [eb[k] for k in ("start", "end", "wall", "std", "sav")] + [eb["name"]]})
+    # 2b. ... and around every transition of a zone from 1900 to 2040, in scrambled order: at the transition, just before and after it,
+    #     later the same UTC day and at that day's last nanosecond (a cache period boundary may fall anywhere relative to a transition)
+    for zid in rnd.sample(list(tz.ids), 8 if q else 80):
+        z = tz[zid]
+        inner = getattr(z, "_CachedDateTimeZone__time_zone", None)
+        if inner is None:
+            continue
+        pts = []
+        try:
+            t = Instant.from_utc(1900, 1, 1, 0, 0)
+            stop = Instant.from_utc(2040, 1, 1, 0, 0)
+            while t < stop and len(pts) < 2000:
+                ivl = inner.get_zone_interval(t)
+                if not ivl.has_end:
+                    break
+                t = ivl.end
+                day, nod = t._days_since_epoch, t._nanosecond_of_day
+                pts += [(day, nod), (day, nod + 1) if nod + 1 < proj.NPD else (day + 1, 0), (day, nod - 1) if nod > 0 else (day - 1, proj.NPD - 1),
+                        (day, rnd.randrange(nod, proj.NPD)), (day, proj.NPD - 1)]
+        except Exception:  # noqa: BLE001 - walking the underlying zone is C04's business
+            pass
+        rnd.shuffle(pts)
+        for day, nod in pts[: (600 if q else 3000)]:
+            try:
+                t = Instant._ctor(days=day, nano_of_day=nod)
+                a, b = z.get_zone_interval(t), inner.get_zone_interval(t)
+                ea, eb = iv_event(a), iv_event(b)
+                evs.append({"op": "zc", "zone": zid, "cached": [ea[k] for k in ("start", "end", "wall", "std", "sav")] + [ea["name"]],
+                            "direct": [eb[k] for k in ("start", "end", "wall", "std", "sav")] + [eb["name"]], "near_transition": True})
+            except Exception as e:  # noqa: BLE001
+                evs.append({"op": "zc", "zone": zid, "cached": [type(e).__name__], "direct": [], "near_transition": True})
     # 3. identity: provider lookups in permuted orders, calendar singletons, fixed zones
     ids = list(tz.ids)
     first = {i: tz[i] for i in rnd.sample(ids, 40)}
@@ -193,6 +224,38 @@ def sequential_events(rnd: random.Random, q: bool) -> list:
         except Exception as e:  # noqa: BLE001
             ev["exc"] = type(e).__name__
         evs.append(ev)
+    # 4b. one shared format info serves the patterns of every type (it keeps one lazily made parser per type): whatever order the types
+    #     are first asked in for a cached culture, each answers what a history-free format info (a mutable culture's) answers
+    from pyoda_time import AnnualDate as _AD, Duration as _Du, Instant as _In, LocalTime as _LT, Offset as _Of
+    from pyoda_time.text import AnnualDatePattern as _ADP, DurationPattern as _DuP, InstantPattern as _InP, LocalDateTimePattern as _LDTP
+    from pyoda_time.text import LocalTimePattern as _LTP, OffsetPattern as _OfP
+
+    typed = [("LocalDate", LocalDatePattern, "dd MMMM yyyy", probe), ("LocalDateTime", _LDTP, "yyyy-MM-dd HH:mm tt", probe.at(_LT(13, 5, 7))),
+             ("LocalTime", _LTP, "hh:mm:ss tt", _LT(13, 5, 7)), ("AnnualDate", _ADP, "dd MMMM", _AD(2, 29)),
+             ("Offset", _OfP, "+HH:mm", _Of.from_hours_and_minutes(5, 30)), ("Instant", _InP, "yyyy-MM-dd HH:mm:ss", _In.from_utc(2024, 2, 29, 13, 5)),
+             ("Duration", _DuP, "-D:hh:mm:ss", _Du.from_seconds(100000)),
+             ("LocalDate std", LocalDatePattern, "D", probe), ("LocalDateTime std", _LDTP, "F", probe.at(_LT(13, 5, 7))), ("LocalTime std", _LTP, "T", _LT(13, 5, 7))]
+    getter = getattr(CultureInfo, "get_culture_info", None)
+    for cname in rnd.sample(["en-GB", "fr-FR", "de-AT", "ru-RU", "ja-JP", "pt-BR", "it-CH", "nl-BE", "sv-SE", "el-GR", "tr-TR", "hi-IN", "ko-KR", "es-MX"], 6 if q else 14):
+        try:
+            mutable = CultureInfo(cname)
+            shared_c = [CultureInfo.read_only(CultureInfo(cname))] + ([getter(cname)] if callable(getter) else [])
+        except Exception:  # noqa: BLE001
+            continue
+        for sc in shared_c:
+            order = typed[:]
+            rnd.shuffle(order)
+            for tname, cls, ptxt, val in order + order[:3]:
+                try:
+                    pure = cls.create(ptxt, mutable).format(val)
+                except Exception:  # noqa: BLE001 - not a pattern this culture can make at all: nothing to ask
+                    continue
+                ev = {"op": "fmt", "culture": f"{cname} {tname}", "pure": [ord(ch) for ch in pure], "text": [], "types_in_any_order": True}
+                try:
+                    ev["text"] = [ord(ch) for ch in cls.create(ptxt, sc).format(val)]
+                except Exception as e:  # noqa: BLE001
+                    ev["exc"] = type(e).__name__
+                evs.append(ev)
     # 5. parsing with shared (cached / singleton) pattern objects: what a text parses to must not depend on what the same pattern
     #    object parsed before (optional fields present in one text and absent in the next are where state would leak)
     from pyoda_time import Duration, Instant, LocalTime, Offset
